@@ -11,5 +11,8 @@ CONSTANTS
   WildcardsFirst = TRUE
   LastGlobWins = FALSE
   LeadingStarZero = FALSE
+  Umbrella = FALSE
+  UVal = "p"
+  UmbrellaAfterConfig = TRUE
 INVARIANT ParentsFirst
 INVARIANT PrecedenceAsDocumented
